@@ -226,10 +226,15 @@ func (sw *SlidingWindow) Add(data any) {
 		sw.initialized = true
 	} else if timeChar == types.EventTime && sw.currentSlot != nil && eventTime.Before(*sw.currentSlot.Start) &&
 		(sw.watermark == nil || !sw.watermark.IsEventTimeLate(eventTime)) {
-		// An on-time event older than the current slot can only occur while the
-		// first slot has not advanced yet (afterwards slot.Start < watermark).
+		// An on-time event older than the current slot that a slide-aligned window
+		// still covers can only occur while the first slot has not advanced yet
+		// (every window the slot has passed ends at or before the watermark).
 		// Re-align the slot to it so that the windows covering it are not skipped.
-		sw.currentSlot = sw.createSlotFromStart(alignWindowStart(eventTime, sw.slide))
+		// With slide > size the event may instead lie in a gap between windows:
+		// then no window covers it and the slot must stay where it is.
+		if realigned := sw.createSlotFromStart(alignWindowStart(eventTime, sw.slide)); realigned.Contains(eventTime) {
+			sw.currentSlot = realigned
+		}
 	}
 	row := types.Row{
 		Data:      data,
